@@ -513,17 +513,33 @@ def c25(res, thorough):
 
 
 def c22(res, thorough):
+    from poolmon_pre import poolmon_pre
     base_cov(res, ["memory orders of the lock word", "back-off timing",
-                   "Algo/Spin (spin lock) and Algo/ReentrantSpin (owner + depth) are Lean machines proved for all schedules (mutual exclusion, lock word, release only by the last unlock, other threads excluded) and tied by trace conformance",
-                   "Algo/PoolMonitor (refspin word, lazy lock attach/detach, lock pool as FIFO of ids): Lean machine proved for all schedules, any pool capacity (mutual exclusion, lock uniqueness, returned only when unused, "
-                   "refcount counts users, spin-bit exclusion); hand model tied through the client's occupancy / pool oracles and histories, not yet by trace replay (the pool's own operations are not model events)",
-                   "injecting_monitor and lock_array: no atomic-step model: decided by the history tie and the client's occupancy oracles only"],
-             partial=["pool_monitor trace conformance: not wired", "injecting_monitor / lock_array as theorems: not proved"])
-    lean_step(res, ["CdsVerif.Props.C22", "CdsVerif.Props.C22Monitors"], thorough)
+                   "Algo/Spin (spin lock, also the per-node lock of injecting_monitor), Algo/ReentrantSpin (owner + depth), Algo/LockArray (cell selection policies, lock_all / unlock_all in index order) and Algo/PoolMonitor "
+                   "(refspin word, lazy lock attach / detach, lock pool) are Lean machines proved for all schedules (mutual exclusion, lock word, release only by the last unlock, lock uniqueness, returned only when unused, "
+                   "refcount counts users, lock_all holds every cell and is not atomic) and ALL of them are tied by trace conformance; the pool monitor replay machine takes the pool's choice of lock object from the trace "
+                   "(a nondeterministic-choice generalisation of the FIFO machine: PInv re-proved for it, and every state of the FIFO machine is reachable in it)",
+                   "the lock pool itself (vyukov_queue_pool) is judged by C24 / C07"],
+             partial=[])
+    lean_step(res, ["CdsVerif.Props.C22", "CdsVerif.Props.C22Monitors", "CdsVerif.Props.C22PoolReplay", "CdsVerif.Props.C22LockArray"], thorough)
     n = 20000 if thorough else 2000
     for v, m in (("spin", "spin"), ("reentrant", "reentrant")):
         tie_A(res, "locks", m, [{"args": ["--mode", "mixed", "--threads", "4", "--ops", "5", "--variant", v], "cases": n // 2},
                                 {"args": ["--mode", "enum2" if thorough else "enum1", "--threads", "2", "--ops", "3", "--variant", v], "cases": 20 if thorough else 8}])
+    tie_A(res, "locks", "poolmon", [
+        {"args": ["--mode", "mixed", "--threads", "4", "--ops", "5", "--variant", "pool_monitor_named", "--cap", "2"], "cases": n // 2},
+        {"args": ["--mode", "cas", "--threads", "3", "--ops", "5", "--variant", "pool_monitor_named", "--cap", "2"], "cases": n // 4},
+        {"args": ["--mode", "mixed", "--threads", "2", "--ops", "6", "--variant", "pool_monitor_named", "--cap", "4"], "cases": n // 4},
+        {"args": ["--mode", "enum2" if thorough else "enum1", "--threads", "2", "--ops", "3", "--variant", "pool_monitor_named", "--cap", "2"], "cases": 20 if thorough else 8}],
+        pre=poolmon_pre)
+    tie_A(res, "locks", "spin", [
+        {"args": ["--mode", "mixed", "--threads", "4", "--ops", "5", "--variant", "injecting"], "cases": n // 4},
+        {"args": ["--mode", "cas", "--threads", "3", "--ops", "5", "--variant", "injecting"], "cases": n // 8},
+        {"args": ["--mode", "enum1", "--threads", "2", "--ops", "3", "--variant", "injecting"], "cases": 8}], label="locks:injecting")
+    tie_A(res, "locks", "lockarray", [
+        {"args": ["--mode", "mixed", "--threads", "4", "--ops", "5", "--variant", "lock_array"], "cases": n // 4},
+        {"args": ["--mode", "cas", "--threads", "3", "--ops", "5", "--variant", "lock_array"], "cases": n // 8},
+        {"args": ["--mode", "enum1", "--threads", "2", "--ops", "3", "--variant", "lock_array"], "cases": 8}])
     tie_H(res, "locks", [{"args": ["--mode", "mixed", "--threads", "4", "--ops", "5"], "cases": n},
                          {"args": ["--mode", "enum2" if thorough else "enum1", "--threads", "2", "--ops", "3"], "cases": 25 if thorough else 10}])
 
